@@ -134,6 +134,11 @@ def _args(argspec, filled):
     return out
 
 
+ARG_CONTENTS = [('digits', 'A1b 09'), ('punct', 'a,b;c.-!?'), ('nonascii', '\u00e9\u00df\u03b1 \u4e2d'),
+                ('accent-macro', "\\'e\\\"{o}"), ('blank', ' '), ('nested-group', '{A{1}}'),
+                ('sub-super', 'a_1^{2}'), ('ligatures', "``a''---b--c")]
+
+
 def macro_templates(name, argspec):
     m = '\\' + name
     sep = ' ' if name[:1].isalpha() else ''
@@ -166,6 +171,11 @@ def macro_templates(name, argspec):
         ('nested-self', m + '{' + full + '}'),
         ('math-arg', m + '{$x$}{\\alpha}'),
     ]
+    # what an argument may contain: digits, capitals, punctuation, non-ASCII letters, an accent
+    # macro, nothing but a blank, a nested group
+    for label, content in ARG_CONTENTS:
+        t.append(('arg-content:' + label, m + _args(argspec, True).replace('x', content)
+                  .replace('y', content).replace('z', content) if argspec else m + '{' + content + '}'))
     return t
 
 
